@@ -14,6 +14,9 @@ CLAIM = dict(
          "initially infected nodes followed by exactly one entry per infection event (same time, same target), in time order; replaying the event log, every entry goes along an edge "
          "from a node infectious at that moment to a node susceptible at that moment (executable checker valid_logb = true), every source was infectious initially or as the target of an "
          "earlier entry, in SIR nobody is infected twice (forest rooted at the initial nodes), and rows/histories are projections of the same log. "
+         "The same is proved for the event-driven fast_nonMarkov_SIR / fast_SIR loop for every tie policy (coq/Props/C09esir.v: edge, source infectious on the closed "
+         "interval up to its recovery, target susceptible just before, one entry per infection, source-less entries = the initial nodes at tmin, forest) with an extracted checker tx_validb "
+         "(proved sound, accepted on every model run) applied to the implementation's own transmissions(). "
          "For ALL simulators offering full data (Gillespie_*, fast_*, fast_nonMarkov_*, discrete_SIR, basic_discrete_SIR/SIS, percolation_based_discrete_SIR, "
          "Gillespie_simple_contagion incl. directed graphs) a Python oracle checks every clause of the property on the returned object.",
     design='DESIGN.md section 4, C09',
@@ -140,6 +143,8 @@ def run(run, tier):
             run.violation('C09/' + k, what, dict(rp, kind='all-simulator-oracle'))
     from . import xsim
     xsim.run_others(run, 'C09', EoN, sim, tier, per, total, 'valid_transmissions')
+    from . import esirx
+    esirx.part(run, tier, 'C09', props, per)
     if not props['ok']:
         run.violation('C09/proof', 'Props/C09.v no longer checks: %s' % props['log'][-400:], {'broken': 'coq/Props/C09.v', 'log': props['log']}, no_input=True)
     C.proof_coverage(run, props, total.n, min(len(total.distinct), total.nontrivial),
@@ -150,6 +155,9 @@ def run(run, tier):
 
 
 def replay(rp):
+    if rp['replay'].get('checker'):
+        from . import esirx
+        return esirx.replay(rp)
     j = rp['replay']
     if j.get('lib'):
         from . import gil_lib as GL
